@@ -460,6 +460,15 @@ func (e *Enc) enterLoop(fr *Frame, li *loopInfo, ins []edgeIn) pathState {
 		vis := e.get(st, e.comps[it.visited])
 		e.assumeIf(reach, fmt.Sprintf("(forall ((k %s)) (! (=> (select %s k) (select %s k)) :pattern ((select %s k))))", ks, vis, it.startDom, vis))
 	}
+	// 2a'. the compiler-generated index of a range-over-slice loop starts at -1 and is only
+	// ever incremented
+	for a, c := range fr.locals {
+		if a.Comment == "rangeindex" {
+			if v, ok := st.v[c.Name]; ok {
+				e.assumeIf(reach, "(>= "+v+" (- 1))")
+			}
+		}
+	}
 	// 2b. loop frame: locations outside the function's modifies clause are unchanged so far
 	if e.framesOn() {
 		goals := e.frameGoals(st)
@@ -1615,6 +1624,11 @@ func (e *Enc) execTypeAssert(fr *Frame, x *ssa.TypeAssert, cur *pathState) {
 		_, unbox := e.boxFns(at)
 		ok = fmt.Sprintf("(= (typeof %s) %d)", v.T, e.typeID(at))
 		val = "(" + unbox + " " + v.T + ")"
+		if _, isPtr := at.Underlying().(*types.Pointer); isPtr && v.Ext {
+			// a value produced by a module dependency: no typed-nil pointers inside interfaces
+			e.assume(implies(ok, not(eq(val, "nil"))))
+			e.note("type assertion on a value returned by a dependency: a successful assertion to a pointer type yields a non-nil pointer (dependencies are assumed not to wrap nil pointers in interfaces)")
+		}
 		if x.CommaOk {
 			val = ite(ok, val, e.zeroOf(at))
 		}
